@@ -21,6 +21,7 @@ type fsink struct {
 	name           string
 	writeErr, sync error
 	short          bool
+	zero           bool
 	writes         [][]byte
 	syncs          int
 }
@@ -30,6 +31,9 @@ func (s *fsink) Write(p []byte) (int, error) {
 	n := len(p)
 	if s.short {
 		n = len(p) / 2
+	}
+	if s.zero {
+		n = 0
 	}
 	return n, s.writeErr
 }
@@ -41,7 +45,7 @@ type errOut struct{ b strings.Builder }
 func (e *errOut) Write(p []byte) (int, error) { e.b.Write(p); return len(p), nil }
 func (e *errOut) Sync() error                 { return nil }
 
-// outcome of one destination: 0 ok, 1 write error, 2 short write + error, 3 sync error
+// outcome of one destination: 0 ok, 1 write error, 2 short write + error, 3 sync error, 4 nothing written + error
 func mkSink(i, outcome int) *fsink {
 	s := &fsink{name: fmt.Sprintf("sink%d", i)}
 	switch outcome {
@@ -52,9 +56,14 @@ func mkSink(i, outcome int) *fsink {
 		s.short = true
 	case 3:
 		s.sync = fmt.Errorf("S%d-failed", i)
+	case 4:
+		s.writeErr = fmt.Errorf("W%d-zero", i)
+		s.zero = true
 	}
 	return s
 }
+
+const nOutcomes = 5
 
 func sinkFaults(run *ev.Run, maxK int) (evals int, distinct map[string]bool) {
 	distinct = map[string]bool{}
@@ -63,7 +72,7 @@ func sinkFaults(run *ev.Run, maxK int) (evals int, distinct map[string]bool) {
 		for k := 1; k <= maxK; k++ {
 			total := 1
 			for i := 0; i < k; i++ {
-				total *= 4
+				total *= nOutcomes
 			}
 			for v := 0; v < total; v++ {
 				for _, lvl := range []zapcore.Level{zapcore.InfoLevel, zapcore.ErrorLevel, zapcore.FatalLevel} {
@@ -71,9 +80,9 @@ func sinkFaults(run *ev.Run, maxK int) (evals int, distinct map[string]bool) {
 					x := v
 					label := ""
 					for i := range sinks {
-						sinks[i] = mkSink(i, x%4)
-						label += fmt.Sprint(x % 4)
-						x /= 4
+						sinks[i] = mkSink(i, x%nOutcomes)
+						label += fmt.Sprint(x % nOutcomes)
+						x /= nOutcomes
 					}
 					var core zapcore.Core
 					if topo == "tee" || topo == "teewrap" {
@@ -97,7 +106,7 @@ func sinkFaults(run *ev.Run, maxK int) (evals int, distinct map[string]bool) {
 					eo := &errOut{}
 					fatals := 0
 					logger := zap.New(core, zap.ErrorOutput(eo), zap.WithFatalHook(hook(func() { fatals++ })))
-					desc := fmt.Sprintf("%s of %d destinations outcomes=%s (0 ok,1 write error,2 short write+error,3 sync error) level=%v", topo, k, label, lvl)
+					desc := fmt.Sprintf("%s of %d destinations outcomes=%s (0 ok,1 write error,2 short write+error,3 sync error,4 zero count+error) level=%v", topo, k, label, lvl)
 					key := func(what string) string { return fmt.Sprintf("sinks:%s:%s", topo, what) }
 					returned := func() (ok bool) {
 						defer func() {
@@ -193,7 +202,7 @@ func main() {
 	run.Assume = []string{
 		"field faults: marshaler error before / between / after children at every node of every tree with <= the stated number of nodes, unencodable reflected values (channel, failing json.Marshaler) as fields and as array elements, panicking Stringer / Error() / Errors(), nil-pointer Stringer and error (rendered as \"<nil>\" under the field's own key, which zap documents in encodeStringer/encodeError)",
 		"elements of the same array after a failing element are not required (zap's array marshalers stop at the first error; the statement speaks of other fields)",
-		"sink/core faults: every vector over {ok, write error, short write + error, sync error} for tees and multi-syncers of k destinations, two entries each, levels info/error/fatal(with hook)",
+		"sink/core faults: every vector over {ok, write error, short write + error, sync error, nothing written + error} for tees and multi-syncers of k destinations, two entries each, levels info/error/fatal(with hook)",
 	}
 	cov := d.Coverage("field part: one evaluation = one log call on the real JSON core with a failing field somewhere in the tree, decoded and compared with the reference tree that contains the <key>Error member and every other field; sink part: one evaluation = one (topology, outcome vector, level) run of two entries; distinct = distinct output lines / outcome vectors")
 	cov["evaluations"] = d.Evals.Load() + int64(se)
